@@ -5,6 +5,7 @@
      returns a structural type with the fuel the pipeline hands in;
      the same equivalence for annotation types (SanityChecksType). *)
 Require Import Grits.Base Grits.ModeDefs Grits.Modes Grits.STypes Grits.Infer Grits.WF Grits.Unfold.
+Require Import Grits.WFObs.
 Require Import Grits.spec.WFSpec Grits.proofs.WFProofs Grits.proofs.WFExamples.
 
 Theorem wf_sound : forall D, sanity_typedefs D = Ok None -> WellFormed D.
@@ -27,6 +28,11 @@ Theorem wf_types_complete : forall D ts,
   NoDup (names D) -> Forall (WellFormedType D) ts -> sanity_types D ts = None.
 Proof. exact wf_types_complete_proof. Qed.
 
+(* finding F23 (repaired): the witness is rejected by the model of the current code *)
+Theorem wf_rejects_alias_cycle_modes :
+  exists l, wf_obs f23_text = "REJECT:def-mode-mismatch" ^^ l.
+Proof. eexists. exact F23_rejected. Qed.
+
 Theorem wf_hypotheses_satisfiable : WellFormed ex_env.
 Proof. exact ex_env_wellformed. Qed.
 
@@ -36,4 +42,5 @@ Print Assumptions contractive_fuel_enough.
 Print Assumptions unfold_terminates.
 Print Assumptions wf_types_sound.
 Print Assumptions wf_types_complete.
+Print Assumptions wf_rejects_alias_cycle_modes.
 Print Assumptions wf_hypotheses_satisfiable.
